@@ -17,12 +17,11 @@
 package format
 
 import (
-	"go/token"
 	"log"
 	"reflect"
 
 	"github.com/goplus/xgo/ast"
-	xtoken "github.com/goplus/xgo/token"
+	"github.com/goplus/xgo/token"
 )
 
 // -----------------------------------------------------------------------------
@@ -187,11 +186,11 @@ func formatCallExpr(ctx *formatCtx, v *ast.CallExpr) {
 func formatSelectorExpr(ctx *formatCtx, v *ast.SelectorExpr, ref *ast.Expr) {
 	switch x := v.X.(type) {
 	case *ast.Ident:
-		if _, o := ctx.scope.LookupParent(x.Name, token.NoPos); o != nil {
+		if ctx.declared(x.Name) {
 			break
 		}
 		if imp, ok := ctx.imports[x.Name]; ok {
-			if !fmtToBuiltin(imp, v.Sel, ref) {
+			if !fmtToBuiltin(ctx, imp, v.Sel, ref) {
 				imp.isUsed = true
 			}
 		}
@@ -282,7 +281,7 @@ func formatExprStmt(ctx *formatCtx, v *ast.ExprStmt) {
 func formatAssignStmt(ctx *formatCtx, v *ast.AssignStmt) {
 	formatExprs(ctx, v.Lhs)
 	formatExprs(ctx, v.Rhs)
-	if v.Tok == xtoken.DEFINE { // the new variables are in scope after the statement
+	if v.Tok == token.DEFINE { // the new variables are in scope after the statement
 		ctx.insertIdents(v.Lhs...)
 	}
 }
@@ -322,7 +321,7 @@ func formatRangeStmt(ctx *formatCtx, v *ast.RangeStmt) {
 	formatExpr(ctx, v.Key, &v.Key)
 	formatExpr(ctx, v.Value, &v.Value)
 	formatExpr(ctx, v.X, &v.X)
-	if v.Tok == xtoken.DEFINE { // the iteration variables are in scope in the body only
+	if v.Tok == token.DEFINE { // the iteration variables are in scope in the body only
 		ctx.insertIdents(v.Key, v.Value)
 	}
 	formatBlockStmt(ctx, v.Body)
